@@ -4,6 +4,7 @@
 package main
 
 import (
+	"crypto/sha256"
 	"context"
 	"encoding/hex"
 	"flag"
@@ -20,6 +21,7 @@ import (
 	"github.com/massnetorg/mass-core/poc"
 	"github.com/massnetorg/mass-core/poc/pocutil"
 	"github.com/massnetorg/mass-core/pocec"
+	"github.com/massnetorg/mass-core/wire"
 	"github.com/shirou/gopsutil/disk"
 
 	"massnet.org/mass/api"
@@ -29,6 +31,9 @@ import (
 	"massnet.org/mass/poc/engine/massdb"
 	massdb_v1 "massnet.org/mass/poc/engine/massdb/massdb.v1"
 	"massnet.org/mass/poc/engine/spacekeeper/capacity"
+	wdb "massnet.org/mass/poc/wallet/db"
+	_ "massnet.org/mass/poc/wallet/db/ldb"
+	"massnet.org/mass/poc/wallet/keystore"
 
 	"verifharness/vh"
 )
@@ -70,10 +75,59 @@ func (w *fakeWallet) IsLocked() bool      { return false }
 
 const unit = 8 << 20
 
+// the wallet the keeper is given: the scripted one, or (opt realwallet) the real keystore manager on a real store
+type walletI interface {
+	capacity.PoCWallet
+}
+
+type realWallet struct {
+	*keystore.KeystoreManagerForPoC
+	store wdb.DB
+	dir   string
+}
+
+var fastScrypt = keystore.ScryptOptions{N: 16, R: 8, P: 1}
+var rwPub, rwPriv = []byte("publicpass1"), []byte("privatepass1")
+
+func openRealWallet(dir string, seed int64) (*realWallet, error) {
+	keystore.DefaultScryptOptions = fastScrypt
+	var store wdb.DB
+	var err error
+	fresh := false
+	if _, e := os.Stat(dir); e == nil {
+		store, err = wdb.OpenDB("leveldb", dir)
+	} else {
+		store, err = wdb.CreateDB("leveldb", dir)
+		fresh = true
+	}
+	if err != nil {
+		return nil, err
+	}
+	m, err := keystore.NewKeystoreManagerForPoC(store, rwPub, config.ChainParams)
+	if err != nil {
+		store.Close()
+		return nil, err
+	}
+	if fresh {
+		sd := make([]byte, 32)
+		vh.Rng(seed).Read(sd)
+		if _, err := m.NewKeystore(rwPriv, sd, "plots", config.ChainParams, &fastScrypt); err != nil {
+			store.Close()
+			return nil, err
+		}
+	}
+	if err := m.Unlock(rwPriv); err != nil {
+		store.Close()
+		return nil, err
+	}
+	return &realWallet{KeystoreManagerForPoC: m, store: store, dir: dir}, nil
+}
+
 type drv struct {
 	dirs  map[string]string // d1 -> path
 	names map[string]string // path -> d1
-	wal   *fakeWallet
+	wal   walletI
+	real  *realWallet
 	sk    *capacity.SpaceKeeper
 	rng   interface{ Intn(int) int }
 }
@@ -181,6 +235,24 @@ func (d *drv) project(ev vh.Event) {
 		}
 	}
 	ev["sel"] = sel
+	if d.real != nil {
+		// C05 / C06 through the keeper: every selected space signs under the key its files are named after
+		signok, bad := true, []string{}
+		digest := sha256.Sum256([]byte("capdrv"))
+		for _, in := range infos {
+			sig, err := d.sk.SignHash(in.SpaceID, digest)
+			// the chain verifies a header signature over HashH(PoC hash) (wire.BlockHeader.VerifySig)
+			mh := wire.HashH(digest[:])
+			if err != nil || sig == nil || !sig.Verify(mh[:], in.PublicKey) {
+				signok = false
+				bad = append(bad, fmt.Sprintf("%d: %v", in.Ordinal, err))
+			}
+		}
+		ev["signok"] = signok
+		if !signok {
+			ev["signbad"] = bad
+		}
+	}
 }
 
 func errRes(err error) string {
@@ -351,7 +423,8 @@ func listing(dirs map[string]string) map[string]fstat {
 
 func runIndex(sc vh.Scenario, dir string, rec *vh.Rec) {
 	rng := vh.Rng(sc.Seed)
-	d := &drv{dirs: map[string]string{}, names: map[string]string{}, wal: &fakeWallet{rng: rng}, rng: rng}
+	fw := &fakeWallet{rng: rng}
+	d := &drv{dirs: map[string]string{}, names: map[string]string{}, wal: fw, rng: rng}
 	for _, n := range []string{"d1", "d2"} {
 		p, _ := filepath.Abs(filepath.Join(dir, n))
 		os.MkdirAll(p, 0o755)
@@ -359,8 +432,8 @@ func runIndex(sc vh.Scenario, dir string, rec *vh.Rec) {
 	}
 	keys := map[string]*pocec.PrivateKey{}
 	for _, k := range []string{"k0", "k1", "k2"} {
-		d.wal.GenerateNewPublicKey()
-		keys[k] = d.wal.keys[len(d.wal.keys)-1]
+		fw.GenerateNewPublicKey()
+		keys[k] = fw.keys[len(fw.keys)-1]
 	}
 	for _, k := range []string{"kf", "kf2"} {
 		b := make([]byte, 32)
@@ -477,6 +550,15 @@ func run(sc vh.Scenario, dir string, rec *vh.Rec) {
 	}
 	rng := vh.Rng(sc.Seed)
 	d := &drv{dirs: map[string]string{}, names: map[string]string{}, wal: &fakeWallet{rng: rng}, rng: rng}
+	if rw, _ := sc.Opt["realwallet"].(bool); rw {
+		w, err := openRealWallet(filepath.Join(dir, "wallet"), sc.Seed)
+		if err != nil {
+			rec.Dead, rec.Note = true, "real wallet: "+err.Error()
+			return
+		}
+		d.wal, d.real = w, w
+		defer func() { d.real.store.Close() }()
+	}
 	for _, n := range []string{"d1", "d2"} {
 		p, _ := filepath.Abs(filepath.Join(dir, n))
 		os.MkdirAll(p, 0o755)
@@ -573,6 +655,16 @@ func run(sc vh.Scenario, dir string, rec *vh.Rec) {
 				}
 				ev["res"] = errRes(d.sk.ActOnWorkSpace(in.SpaceID, act))
 			case "Restart":
+				if d.real != nil {
+					// the node restarts: the wallet is reopened from its store, the keeper is built on the new instance
+					d.real.store.Close()
+					w, err := openRealWallet(d.real.dir, sc.Seed)
+					if err != nil {
+						ev["res"], ev["walleterr"] = "err", err.Error()
+						break
+					}
+					d.wal, d.real = w, w
+				}
 				ev["res"] = errRes(d.newKeeper())
 			default:
 				ev["res"] = "unknown-action"
